@@ -2,6 +2,7 @@ package nc
 
 import (
 	"fmt"
+	"go/constant"
 	"go/types"
 	"sort"
 	"strings"
@@ -431,4 +432,65 @@ func (c *Ctx) ruleMustHit(rule, what, why string, op *ssa.Function, excuses []*C
 		}
 	}
 	R.Check(rule, fk, what, c.P.Pos(op.Pos()), ok, why, detail)
+}
+
+// OfAt computes the provenance of v as seen at instruction in, restricted to the paths that can reach in: for every
+// branch above in whose outcome is fixed on the way to in and that tests a boolean phi of constants (a flag set
+// on some paths), the phi inputs that contradict the outcome are infeasible, and so are the values that travel
+// with them (`found := false; var x T; for ... { if m { found = true; x = ...; break } }; if found { use(x) }`).
+func (c *Ctx) OfAt(o *Origins, in ssa.Instruction, v ssa.Value) *Ex {
+	blk := in.Block()
+	cut := NewCut()
+	for d := blk.Idom(); d != nil; d = d.Idom() {
+		n := len(d.Instrs)
+		if n == 0 || len(d.Succs) != 2 {
+			continue
+		}
+		ifi, ok := d.Instrs[n-1].(*ssa.If)
+		if !ok {
+			continue
+		}
+		// the successor through which blk is reached: it has d as its only predecessor and dominates blk
+		taken := -1
+		for i, s := range d.Succs {
+			if len(s.Preds) == 1 && s.Dominates(blk) {
+				if taken >= 0 {
+					taken = -2
+				} else {
+					taken = i
+				}
+			}
+		}
+		if taken < 0 {
+			continue
+		}
+		cv, truth := ifi.Cond, taken == 0
+		for {
+			u, ok := cv.(*ssa.UnOp)
+			if !ok || u.Op.String() != "!" {
+				break
+			}
+			cv, truth = u.X, !truth
+		}
+		phi, ok := cv.(*ssa.Phi)
+		if !ok || !isBool(phi.Type()) || o.Loops.InnermostContaining(phi.Block()) != nil {
+			continue
+		}
+		for i, e := range phi.Edges {
+			k, ok := e.(*ssa.Const)
+			if !ok || k.Value == nil || constant.BoolVal(k.Value) == truth {
+				continue
+			}
+			pred := phi.Block().Preds[i]
+			for si, s := range pred.Succs {
+				if s == phi.Block() {
+					cut.Edges[Edge{pred, si}] = true
+				}
+			}
+		}
+	}
+	if len(cut.Edges) == 0 {
+		return o.Of(v)
+	}
+	return o.WithCut(cut.Edges).Of(v)
 }
